@@ -7,6 +7,7 @@ import random
 from spverif.core.util import attempt, exc_sig
 from spverif.ref.models import VerifModel, UNSET, FAILURE, SUCCESS
 
+THOROUGH_SCALE = 8
 ID = "C16"
 LEVEL = "exploration"
 SHARDS = {"quick": 1, "thorough": 16}
